@@ -145,6 +145,7 @@ class ModelFS:
         self.log = []
         self.counter = 0
         self.open_handles = 0
+        self.fault_writes = False
 
     def fault(self, what):
         k = self.calls
@@ -208,6 +209,8 @@ class ModelFile:
     def write(self, chunk):
         if self.closed:
             raise ValueError("I/O operation on closed file")
+        if self.fs.fault_writes:
+            self.fs.fault("write")
         self.fs.files[self.name] = tuple(self.fs.files.get(self.name, ())) + (chunk,)
         return 1
 
@@ -217,6 +220,8 @@ class ModelFile:
         data = self.fs.files[self.name]
         out = data[self.pos:]
         self.pos = len(data)
+        if "b" not in self.mode and all(isinstance(c, str) for c in out):
+            return "".join(out)          # text mode
         return out
 
     def chunks(self):
